@@ -61,7 +61,7 @@ def main():
         assert subs, "unknown sub-check %r" % doc["sub"]
         ctx.cur_sub = subs[0].name
         ctx.begin(doc["case"])
-        viol = subs[0].check(doc["case"], ctx)
+        viol = common.safe_check(subs[0], doc["case"], ctx)
         for sig, msg in viol:
             ctx.violations.append({"sub": subs[0].name, "sig": sig, "msg": msg, "case": doc["case"], "build": a.build, "from": "replay"})
     else:
